@@ -30,6 +30,8 @@ ASSUMPTIONS = [
     "eliot actions are no-ops, defer_to_thread runs inline, twisted.web.http is a plain namespace of its constants, os.urandom (upload secret) and the clock are constant, "
     "log sinks are dropped; f-string error messages that format integers are not formatted (message text only); CrossHair's optional short-circuiting of repr() is off",
     "collections_extended.RangeMap is the stand-in from /verif/shims (the real package is absent from the image)",
+    "four input classes on which the unchanged tree DOES disagree are separated by CLASSIFY/EXCLUDED in the harness (zero-length-read, zero-length-write, "
+    "readv-names-missing-share, rejected-chunk-longer-than-64KiB); unless they are listed in known_findings.json the cases that contain them report VIOLATED",
 ]
 T = {"quick": 120, "thorough": 900}
 K = 65536
@@ -47,30 +49,34 @@ def _b(**kw):
     return out
 
 
+_RM = [{"mode": 0, "nv": 1, "has2": 0, "_label": "shares=[0]"},
+       {"mode": 1, "nv": 2, "has2": 1, "dl": 100, "second": [98, 5], "_label": "shares=[],2-shares,2-vectors"},
+       {"mode": 2, "nv": 1, "has2": 1, "dl": 100, "_label": "shares=[2,0]"}]
 _SOURCES = ((0, "same-source"), (1, "other-source"))
 _SHAPES = ((0, "before"), (2, "after"), (10, "covers-start"), (11, "covers-all"), (12, "inside"), (13, "covers-end"))
 
 OBLIGATIONS = [
     # ---- range reads -----------------------------------------------------------------------------------------------------
     chx("read_immutable", "C31_h", "h_read_immutable", timeout=T, bounds=_b(ln_min=1, ln_max=(2 * K, 4 * K)),
-        cases={"quick": [{"other": 0, "_label": "one-share"}, {"other": 1, "_label": "two-shares"}, {"ln_min": 0, "ln_max": 1, "_label": "length-0-or-1"}],
+        cases={"quick": [{"other": 0, "_label": "one-share"}, {"other": 1, "_label": "two-shares"}],
                "thorough": [{"other": 0, "nl": 1, "_label": "one-share"}, {"other": 1, "nl": 2, "_label": "two-shares,2-leases"},
                             {"other": 0, "nl": 0, "_label": "one-share,no-lease"}, {"ln_min": 0, "ln_max": 1, "_label": "length-0-or-1"}]},
         desc="get_buckets + read(offset, length) of an immutable share (symbolic data length <= 2^40, 1 lease, optionally a second share; offset unbounded, "
              "1 <= length <= 2*65536 so that the server's 64 KiB producer loop runs 1-3 times) through _HTTPStorageServer.get_buckets / _HTTPBucketReader.read / "
              "http_client.read_share_chunk / HTTPServer.list_shares + read_share_chunk / read_range / _ReadRangeProducer versus _StorageServer.get_buckets / "
              "FoolscapBucketReader.remote_read: same share numbers, same bytes [offset, min(offset+length, share length)) incl. empty past the end (204), no state change",
-        outside="length 0 is its own case (see report: the HTTP client raises ValueError where the direct read returns b'')"),
+        outside="witness class zero-length-read (case length-0-or-1): a read of length 0 raises ValueError in the HTTP client (werkzeug refuses the empty Range) "
+                "where the direct read returns b''"),
     chx("read_mutable", "C31_h", "h_read_mutable", timeout=T, bounds=_b(ln_min=1, ln_max=(K, 2 * K)),
-        cases=[{"mode": 0, "nv": 1, "has2": 0, "_label": "shares=[0]"},
-               {"mode": 1, "nv": 2, "has2": 1, "dl": 100, "second": [98, 5], "_label": "shares=[],2-shares,2-vectors"},
-               {"mode": 2, "nv": 1, "has2": 1, "dl": 100, "_label": "shares=[2,0]"},
-               {"mode": 3, "nv": 1, "dl": 100, "_label": "shares=[0,1]"},
-               {"mode": 0, "nv": 1, "has2": 0, "dl": 100, "ln_min": 0, "ln_max": 1, "_label": "length-0-or-1"}],
+        cases={"quick": _RM + [{"mode": 3, "nv": 1, "has2": 1, "dl": 100, "_label": "shares=[0,1]"}],
+               "thorough": _RM + [{"mode": 3, "nv": 1, "dl": 100, "_label": "shares=[0,1],share-1-stored-or-not"},
+                                  {"mode": 0, "nv": 1, "has2": 0, "dl": 100, "ln_min": 0, "ln_max": 1, "_label": "length-0-or-1"}]},
         desc="slot_readv(storage index, shares, read vector) on mutable containers through _HTTPStorageServer.slot_readv / StorageClientMutables.read_share_chunk + "
              "list_shares / HTTPServer.read_mutable_chunk + enumerate_mutable_shares / read_range versus _StorageServer.slot_readv / remote_slot_readv: same share "
              "numbers answered, per share one result per vector in order, same bytes (clipped at the data length, empty past the end); symbolic container geometry for "
-             "one share and one vector, concrete geometry with symbolic offsets for the share-list / multi-vector structure"),
+             "one share and one vector, concrete geometry with symbolic offsets for the share-list / multi-vector structure",
+        outside="witness classes: readv-names-missing-share (a named share that does not exist is skipped by the direct path but makes the HTTP path fail with 404) "
+                "and zero-length-read"),
     chx("server_read_range", "C31_h", "h_server_read_range", timeout=T, bounds=_b(body_max=(3 * K, 6 * K)),
         desc="http_server.read_range + _ReadRangeProducer / _ReadAllProducer alone on an abstract share (unbounded start, end, share length; body <= 3*65536): no Range "
              "header -> 200 with the whole share; one closed byte range -> 206, Content-Range announcing exactly [start, min(end, share length)), body exactly those "
@@ -81,30 +87,39 @@ OBLIGATIONS = [
              "valid/absent/garbage/unsatisfied, symbolic announced range and body length, body in two pieces): the request is a GET of the share URL whose Range denotes "
              "exactly [offset, offset+length); 204 -> b''; data is returned only from a 206 with application/octet-stream whose Content-Range parses, announces at most "
              "`length` bytes and matches the body length exactly; every other answer raises (ClientException carrying the status for a wrong status)"),
-    chx("read_strings", "C31_h", "h_read_strings", timeout=T, bounds=_b(d_max=(5, 9), l_max=(3, 5)),
+    chx("read_strings", "C31_h", "h_read_strings", timeout=T, bounds=_b(d_max=(5, 9), l_max=(3, 5), l_min=(1, 0)),
         desc="the same read comparison (immutable read / mutable slot_readv) with the REAL werkzeug Range / ContentRange classes and parsers and real header text, "
              "for every data length <= 5, offset <= 6, length <= 3 (path per input, run concretely): Range text is 'bytes=first-last', Content-Range text "
              "'bytes first-last/*' of the bytes sent, same bytes as the direct read",
         outside="decides nothing symbolically: it ties the header stand-ins of the symbolic obligations to the real text path"),
     # ---- chunked uploads -------------------------------------------------------------------------------------------------
     chx("upload", "C31_h", "h_upload", timeout=T, bounds=_b(ln_min=1, ln_max=K),
-        cases={"quick": [{"n": 1, "has1": 0, "_label": "1-chunk,<=64KiB"}, {"n": 1, "has1": 0, "l1_min": K + 1, "ln_max": 2 * K, "_label": "1-chunk,>64KiB"},
+        cases={"quick": [{"n": 1, "has1": 0, "_label": "1-chunk,up-to-64KiB"},
+                         {"n": 1, "has1": 0, "l1_min": K + 1, "ln_max": 2 * K, "fits": 1, "_label": "1-chunk,over-64KiB,inside-the-allocated-size"},
                          {"n": 1, "has1": 1, "_label": "1-chunk,share-1-stored"}]
-                        + [{"n": 2, "has1": 0, "conflict": c, "shape": sh, "_label": "2-chunks,%s,second-%s" % (cn, shn)} for (c, cn) in _SOURCES for (sh, shn) in _SHAPES]
-                        + [{"n": 1, "has1": 0, "ln_min": 0, "ln_max": 1, "_label": "length-0-or-1"}],
+                        + [{"n": 2, "has1": 0, "conflict": c, "shape": sh, "_label": "2-chunks,%s,second-%s" % (cn, shn)}
+                           for (c, cn) in _SOURCES for (sh, shn) in _SHAPES if sh in (0, 2, 12)]
+                        + [{"n": 2, "has1": 0, "conflict": c, "shape": sh, "complete": 1, "_label": "2-chunks,%s,second-%s,complete" % (cn, shn)}
+                           for (c, cn) in _SOURCES for (sh, shn) in _SHAPES if sh in (10, 11, 13)]
+                        + [{"n": 2, "has1": 0, "conflict": c, "shape": sh, "complete": 0, "probe": pr, "_label": "2-chunks,%s,second-%s,incomplete,probe-%s" % (cn, shn, prn)}
+                           for (c, cn) in _SOURCES for (sh, shn) in _SHAPES if sh in (10, 11, 13) for (pr, prn) in ((0, "before-the-chunks"), (1, "from-the-chunks-on"))],
                "thorough": [{"n": 1, "has1": h, "ln_max": 3 * K, "_label": "1-chunk,has1=%d" % h} for h in (0, 1)]
                            + [{"n": 2, "has1": 0, "conflict": c, "shape": sh, "ln_max": 2 * K, "_label": "2-chunks,%s,second-%s" % (cn, shn)}
                               for (c, cn) in _SOURCES for (sh, shn) in _SHAPES]
-                           + [{"n": 3, "has1": 0, "conflict": 0, "shape": sh, "ln_max": K, "_label": "3-chunks,second-%s" % shn} for (sh, shn) in _SHAPES[:2]]
+                           + [{"n": 3, "has1": 0, "conflict": 0, "shape": 0, "third": "from-end-of-second", "ln_max": K,
+                               "_label": "3-chunks,second-before,third-continues-the-second"}]
                            + [{"n": 1, "has1": 0, "ln_min": 0, "ln_max": 1, "_label": "length-0-or-1"}]},
-        desc="allocate_buckets({0,1}) (share 1 optionally stored already) then 1-2 (thorough: 3) chunks with symbolic (offset, length <= 2*65536), any order, "
-             "overlapping, optionally from another source (conflict), then close() when complete, through _HTTPStorageServer.allocate_buckets / _HTTPBucketWriter / "
+        desc="allocate_buckets({0,1}) (share 1 optionally stored already, symbolic allocated size) then a history of chunks with symbolic (offset, length) -- quick: "
+             "one chunk <= 2*65536 (so the server applies it in 1-2 pieces), two chunks <= 65536 each in every relative position (second before / after / covering "
+             "the start / everything / a part / the end of the first), same bytes or bytes from another source (conflict); thorough: up to 3*65536 resp. 2*65536 and "
+             "a three-chunk history -- then close() when complete, through _HTTPStorageServer.allocate_buckets / _HTTPBucketWriter / "
              "StorageClientImmutables.create + write_share_chunk / HTTPServer.allocate_buckets + write_share_data / UploadsInProgress versus "
              "_StorageServer.allocate_buckets / FoolscapBucketWriter.remote_write + remote_close: same already-have / allocated sets; each chunk accepted or refused alike "
              "(conflict with different bytes, beyond the allocated size); the HTTP `finished` flag after each chunk is true exactly when the written ranges cover "
              "[0, size) (independent interval-union model), the share is finalised exactly then and close() fires exactly then; `required` is exactly the set of unwritten "
              "bytes (probe); same visible shares and byte-identical file system afterwards",
-        outside="a refused chunk longer than 65536 bytes (class rejected-chunk-longer-than-64KiB, see report) and zero-length chunks (class zero-length-write)"),
+        outside="witness classes (CLASSIFY in the harness): rejected-chunk-longer-than-64KiB (a refused chunk longer than the 65536-byte pieces in which the HTTP "
+                "server applies a PATCH is partly applied there, not at all on the direct path) and zero-length-write; aborts, timeouts, disconnects (C22)"),
     chx("server_write_chunk", "C31_h", "h_server_write_chunk", timeout=T, bounds=_b(body_max=(3 * K, 5 * K)),
         cases=[{"mode": "ok", "_label": "accepted"}, {"mode": "conflict", "_label": "a-piece-refused"}, {"mode": "bad-header", "_label": "no-byte-content-range"}],
         desc="HTTPServer.write_share_data + UploadsInProgress.get_write_bucket + StorageClientImmutables.write_share_chunk alone on a RECORDING bucket (unbounded "
@@ -112,7 +127,7 @@ OBLIGATIONS = [
              "symbolic required range): the body is written in order in contiguous pieces of at most 65536 bytes starting at the announced offset; 409 and no close at "
              "the first refused piece; otherwise the client sees finished == the bucket's answer for the last piece, the bucket is closed exactly then, and `required` "
              "is the bucket's required_ranges(); a PATCH whose Content-Range is missing or not in bytes -> 416, nothing written"),
-    chx("upload_strings", "C31_h", "h_upload_strings", timeout=T, bounds=_b(d_max=(3, 4), l_max=(2, 3)),
+    chx("upload_strings", "C31_h", "h_upload_strings", timeout=T, bounds=_b(d_max=(3, 4), l_max=(2, 3), l_min=(1, 0)),
         desc="two-chunk uploads with the REAL werkzeug ContentRange class / parser and real Content-Range text for every size <= 3, offsets <= 3, lengths <= 2, same or "
              "other source (path per input, run concretely): accepted/refused alike, finished flags, completion, visibility and file system as on the direct path",
         outside="decides nothing symbolically: ties the Content-Range stand-in to the real text path"),
